@@ -19,6 +19,9 @@ theorem even_add8 (pc : BitVec 32) (h : pc &&& 1#32 = 0#32) : (pc + 8#32) &&& 1#
 theorem al4_add4 (pc : BitVec 32) (h : pc &&& 3#32 = 0#32) : (pc + 4#32) &&& 3#32 = 0#32 := by bv_decide
 theorem al16_add16 (pc : BitVec 32) (h : pc &&& 15#32 = 0#32) : (pc + 16#32) &&& 15#32 = 0#32 := by bv_decide
 
+theorem and_not3 (pc : BitVec 32) (h : pc &&& 3#32 = 0#32) : pc &&& ~~~ 3#32 = pc := by bv_decide
+theorem and_not1 (pc : BitVec 32) (h : pc &&& 1#32 = 0#32) : pc &&& ~~~ 1#32 = pc := by bv_decide
+
 /-! ### ARM -/
 
 theorem arm_dec_enc (pc v : BitVec 32) (h : pc &&& 3#32 = 0#32) : armWord false pc (armWord true pc v) = v := by
